@@ -52,6 +52,8 @@ def _split_ratio(t: T):
 
 
 def run(ctx):
+    from ..rules import taylor
+    taylor.check(ctx)
     p = ctx.p
     base = p.func("propagation.propagator.propagate")
     classes = [q for q in p.subclasses("propagation.propagator")
